@@ -6,7 +6,8 @@ import sys
 
 from . import common
 from .common import Check
-from .c17_impl import (CODE_ERR, ERR_CODE, HOUR, MINUTE, HarnessBroken, Impl, Unsupported, cps, show_decl, show_outcome)
+from .c17_impl import (CODE_ERR, ERR_CODE, HOUR, MINUTE, HarnessBroken, Impl, Unsupported, blackbox_skip, cps, show_decl,
+                       show_outcome)
 from .c17_session import Session, minimise, outcome_key as session_outcome_key
 
 RULE = ("every single-character delete / duplicate / swap / insert corruption of 14 seed programs "
@@ -428,8 +429,56 @@ def oracle(impl, r):
     return "escape:" + payload, f"{type(r['exc']).__name__} escapes from parsing / name, arity or type resolution"
 
 
+def report_harness_state(ck, impl):
+    """What of the tie the harness could NOT establish on this tree (shared with the C11 check): differences
+    between the frozen registry and the tree's, and - when no body recorder could be spliced into the registered
+    built-ins - the black-box mode.  Each is a broken tie with a replay entry; the search for failing inputs goes on."""
+    if impl.echo_direct:
+        ck.disagreement("registry", "a variadic function registered through the public decorator q2_function() is not callable "
+                        f"as (*args) any more ({impl.echo_direct}); the harness's own built-in `echo` was put into the registry "
+                        "directly so that the streams keep testing the tree's built-ins",
+                        {"registry": "q2_function()(q2_echo)", "observed": impl.echo_direct, "probe": impl.echo_probe})
+    if impl.blackbox:
+        mode = ("BLACK-BOX mode for every stream of this run: the built-ins' interface is taken from the frozen registry, every "
+                "text goes through aw_query.query2.query only and is judged by the statement oracle, the by-construction "
+                "expectation of its stream"
+                + (", the reference evaluator harness/c11_ref.py (value equality)" if ck.prop == "C11" else "")
+                + " and by the extracted model wherever the model asks for no recorded body outcome (texts on which it does "
+                "are counted under input_distribution 'black-box:...' and not compared with the model)")
+        ck.disagreement("registry-recorder", "the harness cannot splice its body recorder into the registered built-ins, so the "
+                        "model's body-oracle replay is not established on this tree: " + impl.blackbox,
+                        {"no_longer_checks": "recording of the built-in bodies' calls and outcomes (the model's oracle script) "
+                                             "below the registered wrappers of aw_query.functions.functions",
+                         "reason": impl.blackbox, "per_built_in": impl.unspliced, "mode": mode,
+                         "how_the_harness_finds_the_bodies": "harness/c17_impl.py Impl._locate: __wrapped__ chain + the one closure "
+                                                             "cell / attribute of each wrapper holding what it wraps"})
+        ck.coverage["black_box_mode"] = {"reason": impl.blackbox, "built_ins_not_followed": impl.unspliced, "mode": mode}
+        ck.assumptions.append("BLACK-BOX mode (see coverage.black_box_mode): no body calls were recorded on this tree")
+    for d in impl.registry_diffs:       # the tree's interface is not the frozen one: a broken tie by itself
+        ck.disagreement("registry", d, {"registry": d, "snapshot": impl.snapshot_path,
+                                        "see": "tools/c17_registry.py (when the interface legitimately changes)"})
+
+
+def report_blackbox_streams(ck, impl, compared, skipped):
+    if impl.blackbox:
+        ck.coverage["black_box_mode"].update({
+            "streams_run_in_black_box_mode": sorted(set(compared) | set(skipped)),
+            "texts_compared_with_the_model_without_a_body_record": dict(sorted(compared.items())),
+            "texts_not_compared_with_the_model_because_it_asks_for_a_recorded_body_outcome": dict(sorted(skipped.items()))})
+
+
 def main(argv=None):
     ck = Check("C17", argv)
+    try:
+        return run_check(ck)
+    except HarnessBroken as e:
+        # the harness itself cannot work on this tree (unreadable specification, ...): a broken tie with a replay
+        # file that names what no longer checks, like every other one
+        ck.disagreement("harness", f"the harness cannot establish the tie on this tree: {e}", {"harness": str(e)})
+        return ck.finish(RULE)
+
+
+def run_check(ck):
     common.setup_impl_env()
     impl = Impl()
     ck.run_witnesses(["w14", "w17"])
@@ -469,9 +518,8 @@ def main(argv=None):
     seen = set()
     lenient = {}
     first_outcome = {}
-    for d in impl.registry_diffs:       # the tree's interface is not the frozen one: a broken tie by itself
-        ck.disagreement("registry", d, {"registry": d, "snapshot": impl.snapshot_path,
-                                        "see": "tools/c17_registry.py (when the interface legitimately changes)"})
+    report_harness_state(ck, impl)
+    bb_compared, bb_skipped = {}, {}
 
     def process(stream, text, want, r, buckets=None, session=None):
         """One answered query: the statement as an oracle on the implementation's own outcome, the
@@ -573,6 +621,14 @@ def main(argv=None):
                 ck.disagreement("query", f"driver rejected the case for {text!r}", dict(replay, model=mo))
                 continue
             out, mlog, exh = mo
+            if log is None:                 # black-box mode: no body record
+                if blackbox_skip(log, mo):
+                    ck.count("black-box:not compared with the model (it asks for a recorded body outcome)")
+                    bb_skipped[stream] = bb_skipped.get(stream, 0) + 1
+                    continue
+                ck.count("black-box:compared with the model (no body outcome needed)")
+                bb_compared[stream] = bb_compared.get(stream, 0) + 1
+                log = []
             if out != wantw or mlog != log or exh != 0:
                 what = (f"{text!r}: model {show_outcome(out)} / implementation {show_outcome(wantw)}"
                         if out != wantw else f"{text!r}: built-in body calls differ")
@@ -581,6 +637,7 @@ def main(argv=None):
                 ck.disagreement("query", what, dict(replay, model_outcome=show_outcome(out), impl_outcome=show_outcome(wantw),
                                                     model_calls=mlog, impl_calls=log, script_exhausted=exh))
 
+    report_blackbox_streams(ck, impl, bb_compared, bb_skipped)
     ck.coverage["lenient_acceptance_examples"] = lenient
     ck.coverage["registry_specification"] = {"snapshot": impl.snapshot_path, "differences_from_the_tree": impl.registry_diffs,
                                              "live_only_functions_taken_from_the_tree": impl.live_only}
@@ -617,8 +674,4 @@ def main(argv=None):
 
 
 if __name__ == "__main__":
-    try:
-        sys.exit(main())
-    except HarnessBroken as e:
-        print(f"VIOLATION property=C17 replay=none no-failing-input-found (harness cannot read the registry: {e})")
-        sys.exit(1)
+    sys.exit(main())
